@@ -13,6 +13,8 @@ import (
 	"reflect"
 	"runtime"
 	"runtime/debug"
+	"sort"
+	"strings"
 	"sync"
 	"time"
 )
@@ -179,11 +181,12 @@ func Bound(name string, quick, thorough int) int {
 
 func Config(key string, v int) {}
 
-// Freeze/CheckFrozen: natively a deep snapshot comparison through reflection.
+// Freeze/CheckFrozen: natively a canonical deep rendering of everything reachable (following pointers,
+// interfaces, slices over their whole backing array, maps; unexported fields included), compared later.
 type snap struct {
 	label string
-	ptrs  []reflect.Value
-	cp    []reflect.Value
+	vals  []reflect.Value
+	repr  []string
 }
 
 var snaps []snap
@@ -192,37 +195,109 @@ func Freeze(label string, vs ...any) {
 	s := snap{label: label}
 	for _, v := range vs {
 		rv := reflect.ValueOf(v)
-		s.ptrs = append(s.ptrs, rv)
-		s.cp = append(s.cp, deepCopy(rv))
+		s.vals = append(s.vals, rv)
+		s.repr = append(s.repr, deepRepr(rv))
 	}
 	snaps = append(snaps, s)
 }
 
-func deepCopy(v reflect.Value) reflect.Value {
+func deepRepr(v reflect.Value) string {
+	var sb strings.Builder
+	seen := map[uintptr]int{}
+	render(&sb, v, seen, 0)
+	return sb.String()
+}
+
+func render(sb *strings.Builder, v reflect.Value, seen map[uintptr]int, d int) {
 	if !v.IsValid() {
-		return v
+		sb.WriteString("<invalid>")
+		return
+	}
+	if d > 200 {
+		sb.WriteString("<deep>")
+		return
 	}
 	switch v.Kind() {
+	case reflect.Bool:
+		fmt.Fprint(sb, v.Bool())
+	case reflect.Int, reflect.Int8, reflect.Int16, reflect.Int32, reflect.Int64:
+		fmt.Fprint(sb, v.Int())
+	case reflect.Uint, reflect.Uint8, reflect.Uint16, reflect.Uint32, reflect.Uint64, reflect.Uintptr:
+		fmt.Fprint(sb, v.Uint())
+	case reflect.Float32, reflect.Float64:
+		fmt.Fprint(sb, v.Float())
+	case reflect.String:
+		fmt.Fprintf(sb, "%q", v.String())
+	case reflect.Ptr:
+		if v.IsNil() {
+			sb.WriteString("nil")
+			return
+		}
+		if id, ok := seen[v.Pointer()]; ok {
+			fmt.Fprintf(sb, "@%d", id)
+			return
+		}
+		seen[v.Pointer()] = len(seen)
+		sb.WriteString("&")
+		render(sb, v.Elem(), seen, d+1)
+	case reflect.Interface:
+		if v.IsNil() {
+			sb.WriteString("nil")
+			return
+		}
+		sb.WriteString(v.Elem().Type().String() + ":")
+		render(sb, v.Elem(), seen, d+1)
 	case reflect.Slice:
 		if v.IsNil() {
-			return v
+			sb.WriteString("nilslice")
+			return
 		}
+		fmt.Fprintf(sb, "[len=%d cap=%d:", v.Len(), v.Cap())
 		full := v.Slice3(0, v.Cap(), v.Cap())
-		c := reflect.MakeSlice(v.Type(), full.Len(), full.Len())
-		reflect.Copy(c, full)
-		return c
+		for i := 0; i < full.Len(); i++ {
+			render(sb, full.Index(i), seen, d+1)
+			sb.WriteByte(',')
+		}
+		sb.WriteByte(']')
+	case reflect.Array:
+		sb.WriteByte('[')
+		for i := 0; i < v.Len(); i++ {
+			render(sb, v.Index(i), seen, d+1)
+			sb.WriteByte(',')
+		}
+		sb.WriteByte(']')
+	case reflect.Struct:
+		sb.WriteByte('{')
+		for i := 0; i < v.NumField(); i++ {
+			render(sb, v.Field(i), seen, d+1)
+			sb.WriteByte(';')
+		}
+		sb.WriteByte('}')
 	case reflect.Map:
 		if v.IsNil() {
-			return v
+			sb.WriteString("nilmap")
+			return
 		}
-		c := reflect.MakeMap(v.Type())
+		var ents []string
 		it := v.MapRange()
 		for it.Next() {
-			c.SetMapIndex(it.Key(), it.Value())
+			var e strings.Builder
+			render(&e, it.Key(), seen, d+1)
+			e.WriteByte(':')
+			render(&e, it.Value(), seen, d+1)
+			ents = append(ents, e.String())
 		}
-		return c
+		sort.Strings(ents)
+		sb.WriteString("map" + strings.Join(ents, ",") + "]")
+	case reflect.Func:
+		if v.IsNil() {
+			sb.WriteString("nilfunc")
+		} else {
+			sb.WriteString("func")
+		}
+	default:
+		sb.WriteString(v.Kind().String())
 	}
-	return v
 }
 
 func CheckFrozen(label string) {
@@ -230,20 +305,9 @@ func CheckFrozen(label string) {
 		if label != "" && s.label != label {
 			continue
 		}
-		for i, p := range s.ptrs {
-			switch p.Kind() {
-			case reflect.Slice:
-				if p.IsNil() {
-					continue
-				}
-				full := p.Slice3(0, p.Cap(), p.Cap())
-				if !reflect.DeepEqual(full.Interface(), s.cp[i].Interface()) {
-					panic(AssertFailed{"frozen[" + s.label + "] changed"})
-				}
-			case reflect.Map:
-				if !reflect.DeepEqual(p.Interface(), s.cp[i].Interface()) {
-					panic(AssertFailed{"frozen[" + s.label + "] changed"})
-				}
+		for i, v := range s.vals {
+			if deepRepr(v) != s.repr[i] {
+				panic(AssertFailed{"frozen[" + s.label + "] changed"})
 			}
 		}
 	}
